@@ -153,7 +153,43 @@ fn string_word_inputs(tier: Tier) -> Vec<Vec<u8>> {
             out.push(v);
         }
     }
+    // every char whose upper- or lowercase mapping is not exactly one char (the complete class, computed
+    // from the running std: titlecase letters, ligatures, ß, İ, ŉ, ...): as the whole text and after an 'a'
+    for c in case_expanding_chars() {
+        let w = c as u32;
+        for lb in [0u8, 1, 2, 255] {
+            let mut v = vec![lb];
+            for _ in 0..12 {
+                v.extend_from_slice(&w.to_le_bytes());
+            }
+            out.push(v);
+            let mut v = vec![lb];
+            v.extend_from_slice(&('a' as u32).to_le_bytes());
+            for _ in 0..11 {
+                v.extend_from_slice(&w.to_le_bytes());
+            }
+            out.push(v);
+        }
+    }
+    // when min == max no length byte is consumed: the same word sequences without the leading byte
+    let unprefixed: Vec<Vec<u8>> = out.iter().filter(|v| v.len() > 5 && v[0] == 1).map(|v| v[1..].to_vec()).collect();
+    out.extend(unprefixed);
     out
+}
+
+/// all chars `c` with `c.to_uppercase().count() != 1 || c.to_lowercase().count() != 1`
+pub fn case_expanding_chars() -> Vec<char> {
+    (0u32..=0x10FFFF).filter_map(char::from_u32).filter(|c| c.to_uppercase().count() != 1 || c.to_lowercase().count() != 1).collect()
+}
+
+/// the byte inputs the Arbitrary explorations feed to a declaration's generator
+pub fn arbitrary_inputs(d: &Decl, tier: Tier) -> Vec<Vec<u8>> {
+    let mut v = generic_byte_inputs();
+    v.extend(float_word_inputs(d, tier));
+    if d.family() == Family::Str {
+        v.extend(string_word_inputs(tier));
+    }
+    v
 }
 
 /// does the user-contract exclusion apply? (custom sanitizers that can push a generated in-range
@@ -541,6 +577,13 @@ pub fn c12(cx: &Ctx) -> Report {
                                 }
                             }
                             Err(p) => r.violate(mkviol("C12", i, d, "Ord::cmp", format!("{} ? {}", grid[a].show(), grid[b].show()), "no panic".into(), p.clone(), "panic")),
+                        }
+                    }
+                    if let (Some(ops), Some(c)) = (&o.ops, cmpm[a][b]) {
+                        use std::cmp::Ordering::*;
+                        let want = [c == Less, c != Greater, c == Greater, c != Less];
+                        if *ops != Ok(want) {
+                            r.violate(mkviol("C12", i, d, "operators [<, <=, >, >=] vs Ord::cmp", format!("{} ? {}", grid[a].show(), grid[b].show()), format!("{want:?} (cmp = {c:?})"), format!("{ops:?}"), "operators-inconsistent-with-cmp"));
                         }
                     }
                     if let Some(Ok(e)) = &o.eq {
